@@ -190,7 +190,7 @@ STATS = [
 
 def run(ctx: Ctx):
   st = {}
-  for r in (r1, r2, r3, r4, r5, r6, r7, r9, r10, r12, r14, r15, r16, r17, r18, r19):
+  for r in (r1, r2, r3, r4, r5, r6, r7, r9, r10, r12, r14, r15, r16, r17, r18, r19, r20, r21):
     ctx.guard(r, st)
   from mlmverif.props import c11
   from mlmverif.props._agg import model as aggmodel
@@ -593,6 +593,95 @@ def r19(ctx: Ctx, st):
                  ' clean -> lowercase -> split into words', node=c)
       else:
         ctx.ok(rule, fi, what, c)
+  ctx.floor(rule, 1, n)
+
+
+def r20(ctx: Ctx, st):
+  rule = 'R-C07-20'
+  ctx.rule(rule, '"metric values equal their mathematical definitions ... for every input": an optional NUMERIC parameter (annotation'
+           ' `NumbersT | None`, `float | None`, `int | None`; None = not given) is tested for presence with `is None`, never'
+           ' by truth: 0 / 0.0 is a value (the decision boundary for logits, the first axis, a rate of zero). `if threshold:`'
+           ' skips the binarisation for threshold=0 and the flip mask is computed on raw scores; sibling functions of one'
+           ' module agree on the test')
+  from mlmverif.props.c17 import _truth_positions
+  repo = ctx.repo
+  n = 0
+  mods = [mn for mn in ('signals.flip_masks', 'signals.topk_accuracy', 'signals.cg_score', 'signals.text', 'metrics.classification',
+                        'metrics.retrieval', 'metrics.rolling_stats', 'metrics.text', 'metrics.utils', 'aggregates.rolling_stats',
+                        'aggregates.classification', 'aggregates.retrieval', 'aggregates.stats')]
+  for mn in mods:
+    try:
+      mi = repo.module(mn)
+    except Exception:  # pylint: disable=broad-exception-caught
+      continue
+    fns = list(mi.functions.values()) + [m_ for c in mi.classes.values() for m_ in c.methods.values()]
+    for fi in fns:
+      a = fi.node.args
+      numeric = set()
+      for x in a.posonlyargs + a.args + a.kwonlyargs:
+        if x.annotation is None:
+          continue
+        parts = [p_.strip() for p_ in unparse(x.annotation).split('|')]
+        if 'None' in parts and any(p_.split('.')[-1] in ('NumbersT', 'float', 'int', 'Number') for p_ in parts):
+          numeric.add(x.arg)
+      if not numeric:
+        continue
+      n += 1
+      bad = None
+      for t in _truth_positions(fi.node):
+        if isinstance(t, ast.Name) and t.id in numeric:
+          bad = bad or t
+      what = f'{fi.qualname}: optional numeric parameters {sorted(numeric)} are tested with `is None`'
+      if bad is None:
+        ctx.ok(rule, fi, what, fi.node)
+      else:
+        ctx.fail(rule, fi, what,
+                 f'`{bad.id}` (line {bad.lineno}) is used as a truth value in {fi.qualname}: the legitimate value 0 / 0.0 is'
+                 ' taken for "not given", so the function silently computes something else for that input (e.g. a flip mask'
+                 ' on raw scores instead of binarised ones)', node=bad)
+  ctx.floor(rule, 3, n)
+
+
+def r21(ctx: Ctx, st):
+  rule = 'R-C07-21'
+  ctx.rule(rule, '"for every ... k-list": result() of the top-k retrieval accumulator extends a state that has fewer entries than'
+           ' configured ks "from the last value" — that is only right when the LAST k a batch evaluates is the length the'
+           ' rankings were cut to (the value over the whole ranking). So the per-batch k list built in add() ends with that'
+           ' bound on every path: `<ks below the bound> + [bound]`. With `... or [bound]` a k beyond the longest ranking is'
+           ' padded with the value of the last k that fitted (metric@5 silently reports metric@1)')
+  repo = ctx.repo
+  ci = repo.cls(RET, 'TopKRetrieval')
+  res, add = ci.methods.get('result'), ci.methods.get('add')
+  pads = [x for x in ast.walk(res.node) if isinstance(x, ast.BinOp) and isinstance(x.op, ast.Mult) and isinstance(x.left, ast.List)
+          and len(x.left.elts) == 1 and isinstance(x.left.elts[0], ast.Subscript) and unparse(x.left.elts[0].slice) == '-1']
+  if not pads:
+    ctx.info(rule, res, 'result() no longer pads missing ks from the last value: nothing to require of add()')
+    ctx.floor(rule, 0)
+    return
+  # the bound the rankings are cut to: range(<bound>) of the per-row comprehension / k_range
+  bounds = {unparse(c.args[0]) for c in ast.walk(add.node) if isinstance(c, ast.Call) and unparse(c.func) in ('range', 'np.arange')
+            and len(c.args) == 1 and isinstance(c.args[0], ast.Name)}
+  ks = [x for x in walk_no_nested(add.node) if isinstance(x, ast.Assign) and any(
+      isinstance(t, ast.Name) and 'k_list' in t.id for t in x.targets) and any(
+          isinstance(y, ast.Name) and y.id in bounds for y in ast.walk(x.value))]
+  if not ks or not bounds:
+    raise AnalysisError(f'{rule}: the per-batch k list of TopKRetrieval.add (built from the truncation bound) was not found')
+  n = 0
+  for x in ks:
+    n += 1
+    v = x.value
+    while isinstance(v, ast.Call) and unparse(v.func) in ('np.asarray', 'np.array', 'list', 'tuple', 'sorted') and v.args:
+      v = v.args[0]
+    ends_with_bound = isinstance(v, ast.BinOp) and isinstance(v.op, ast.Add) and isinstance(v.right, ast.List) and len(
+        v.right.elts) == 1 and unparse(v.right.elts[0]) in bounds
+    what = 'TopKRetrieval.add: the per-batch k list ends with the length the rankings are cut to'
+    if ends_with_bound:
+      ctx.ok(rule, add, what, x)
+    else:
+      ctx.fail(rule, add, what,
+               f'`{unparse(x)[:90]}` does not end with the truncation bound ({sorted(bounds)}) on every path: result() pads the'
+               ' missing ks with the LAST evaluated value, which then is the value at a smaller k, not the value over the whole'
+               ' ranking — every metric at a k beyond the longest ranking is wrong', node=x)
   ctx.floor(rule, 1, n)
 
 
@@ -1387,6 +1476,10 @@ _C = 'aggregates/classification.py'
 _T = 'aggregates/retrieval.py'
 _MC = 'metrics/classification.py'
 VARIANTS = [
+    B('flip-mask-threshold-tested-by-truth', 'signals/flip_masks.py',
+      '  if threshold is not None:\n    base_prediction = base_prediction > threshold', '  if threshold:\n    base_prediction = base_prediction > threshold', 'R-C07-20'),
+    B('topk-k-list-falls-back-instead-of-appending', 'aggregates/retrieval.py',
+      '        [k for k in k_list if k < max_pred_count] + [max_pred_count]', '        [k for k in k_list if k <= max_pred_count] or [max_pred_count]', 'R-C07-21'),
     B('ngram-cleaning-replaces-by-space', 'aggregates/text.py',
       "words = re.sub(r'[^a-zA-Z ]+', '', text).lower().split()", "words = re.sub(r'[^a-zA-Z ]+', ' ', text).lower().split()", 'R-C07-19'),
     B('ngram-cleaning-keeps-case', 'aggregates/text.py',
